@@ -278,17 +278,20 @@ def _loop_check(ctx, repo, qual, env, what, known_ok=True, max_while=2):
             continue
         acks = [e for e in p.effects if is_call(e, qual=f"{CM}.ReliableSender.ack") and e.data["args"][:1] == [3]]
         rt = [e for e in p.effects if is_call(e, qual=f"{CM}.ReliableSender.maybe_retry")]
-        first_end = iters[1].seq if len(iters) > 1 else 10 ** 9
+        later = [e for e in p.effects if e.seq > iters[0].seq and e.kind in ("loop_iter", "loop_exit") and isinstance(e.node, ast.While) and e.func == fi.qual]
+        completed = bool(later)  # the first iteration ran to its end (the loop test was evaluated again)
+        first_end = later[0].seq if later else 10 ** 9
         if not acks:
             res["ack"] = False
-        if not any(iters[0].seq < e.seq < first_end for e in rt) and p.exit[0] != "raise":
+        if completed and not any(iters[0].seq < e.seq < first_end for e in rt):
             res["retry"] = False
     return fi, res
 
 
 def r1_receive_loops(ctx):
     repo = ctx.repo
-    hc = {"H1": Obj(f"{CM}.GraceWatcher", {}, name="gw")}
+    from ..evalx import AnyKeyDict
+    hc = AnyKeyDict(True, Obj(f"{CM}.GraceWatcher", {}, name="gw"), "heartbeat_checker")
     hosts = {"H1": (Sym("s"), "a"), "data.H1": (Sym("s2"), "b")}
     for qual, env, label in (
         (f"{BR}.recv_events", {"self.heartbeat_checker": hc, "self.sender.hosts": dict(hosts)}, "controller receive loop"),
